@@ -5,6 +5,7 @@ from harness.props.c12 import steady_band, LAT
 
 class C13(scen.PairProp):
     id = "C13"
+    fuzz_kinds = {"ring", "r_init", "r_bell", "r_setting"}
     lean_module = "Wheatley.Props.C13"
     theorems = ["Wheatley.C13.inertia1_line_invariant",
                 "Wheatley.C13.inertia1_strike",
@@ -13,13 +14,16 @@ class C13(scen.PairProp):
                 "Wheatley.C13.blunder_dropped",
                 "Wheatley.C13.blunder_harmless",
                 "Wheatley.C13.threshold_value",
-                "Wheatley.C13.unexpected_stroke_ignored"]
+                "Wheatley.C13.unexpected_stroke_ignored",
+                "Wheatley.C13.inertia_setting_applies"]
     level_text = ("theorems: with inertia 1 a data point never changes start or interval (the early return), so the "
                   "line after row 0 is independent of every later strike; exp(-9) < 1/1000 (proved for the real "
                   "exponential), hence a strike 3 or more places from its slot gets a weight below the rejection "
                   "threshold, is filtered out at once, and on a settled data set (all points on the line) leaves data "
                   "set and line exactly as they were. correspondence: pairs of keep-going sessions - inertia 1 with "
-                  "human timings that agree on rows 0-1 and differ by up to a row afterwards; settled touches with one "
+                  "human timings that agree on rows 0-1 and differ by up to a row afterwards; server-mode sessions in "
+                  "which the inertia is set to 1 through the settings channel (from 0, 0.5, or 1 via 0) and the humans "
+                  "then ring differently; settled touches with one "
                   "strike displaced 3..N places early or late (any inertia, human set, memory size); oracle: Wheatley's "
                   "strike times in the two runs are equal. non-trivial = the two human histories differ")
 
@@ -34,8 +38,10 @@ class C13(scen.PairProp):
             t0 = 1000.0 + rng.random()
             rows = 10
             a = t0 + 3
-            mode = rng.choice(["inertia1", "blunder", "blunder"])
+            mode = rng.choice(["inertia1", "blunder", "blunder", "inertia1_set"])
             base = steady_band(N, humans, a, I, gap, rows)
+            pre = []
+            server = False
             evA = [list(e) for e in base]
             evB = [list(e) for e in base]
             if mode == "inertia1":
@@ -46,6 +52,27 @@ class C13(scen.PairProp):
                 for r in range(rows):
                     for b in humans:
                         if r >= 2:
+                            evA[k][0] += rng.uniform(-0.45, 0.45) * I * N
+                            evB[k][0] += rng.uniform(-0.45, 0.45) * I * N
+                        else:
+                            j = rng.uniform(-0.03, 0.03)
+                            evA[k][0] += j
+                            evB[k][0] += j
+                        k += 1
+                detail = None
+            elif mode == "inertia1_set":
+                # server-mode Bot (the settings channel) over the keep-going rhythm: the inertia is *set*
+                # to 1 at run time, from another value; afterwards the humans' timings differ between the runs
+                server = True
+                inertia = rng.choice([1.0, 1.0, 0.0, 0.5])
+                vals = [0, 1] if inertia == 1.0 else [1]
+                when = rng.choice(["before", "during"])
+                ts = t0 - 0.5 if when == "before" else a + I * N * 1.5
+                pre = [[ts + 0.01 * j, "msg", {"m": "setting", "kvs": [["inertia", v]]}] for j, v in enumerate(vals)]
+                k = 0
+                for r in range(rows):
+                    for b in humans:
+                        if r >= 3:
                             evA[k][0] += rng.uniform(-0.45, 0.45) * I * N
                             evB[k][0] += rng.uniform(-0.45, 0.45) * I * N
                         else:
@@ -72,7 +99,15 @@ class C13(scen.PairProp):
             end = a + I * scen.blow_index(N, gap, rows, 0) + 0.5
             maxb = rng.choice([5, 15, 30])
 
-            def mk(evs):
+            def mk(evs, server=server, pre=pre, inertia=inertia, maxb=maxb):
+                if server:
+                    js = {"type": "method", "stage": N, "notation": "x1", "bob": {"0": "14"}, "single": {"0": "1234"}}
+                    evs = sorted([[t0 - 0.7, "msg", {"m": "row_gen", "json": js}]] + pre + [call(t0, LOOK_TO)] + evs,
+                                 key=lambda e: e[0])
+                    return {"start": 1000.0, "end": end, "tower_size": N, "events": evs,
+                            "on_join": scen.humans_on_join(humans, "Wheatley", [b for b in range(1, 17) if b not in humans]),
+                            "bot": scen.bot_cfg({"type": "placeholder"}, up_down_in=True, user_name="Wheatley", server_id=4),
+                            "rhythm": scen.rhythm_cfg("regression", inertia=inertia, peal_speed=ps, gap=gap, max_bells=maxb)}
                 return {"start": 1000.0, "end": end, "tower_size": N, "events": [call(t0, LOOK_TO)] + evs,
                         "on_join": scen.humans_on_join(humans),
                         "bot": scen.bot_cfg({"type": "plainhunt", "stage": N, "start_row": None}),
@@ -91,12 +126,12 @@ class C13(scen.PairProp):
             if r["crashed"] or r["handler_crashes"]:
                 return f"crash: main={r['crashed']} handlers={r['handler_crashes']}"
         A, B = (scen.rings(r) for r in reply["runs"])
-        tol = 1e-9 if req["mode"] == "inertia1" else 1e-6
+        tol = 1e-9 if req["mode"].startswith("inertia1") else 1e-6
         if len(A) != len(B):
             return f"{req['mode']}: {len(A)} strikes in one run, {len(B)} in the other"
         for i, ((ta, ba, _), (tb, bb, _)) in enumerate(zip(A, B)):
             if ba != bb or abs(ta - tb) > tol:
-                what = ("human timings after the first whole pull changed Wheatley's strike" if req["mode"] == "inertia1"
+                what = ("human timings after the first whole pull changed Wheatley's strike" if req["mode"].startswith("inertia1")
                         else f"a strike displaced by {req['detail'][2]} places (row {req['detail'][0]}, bell {req['detail'][1]}) moved Wheatley's strike")
                 return f"{what} {i} (bell {ba}) from {ta - req['t0']:.6f} to {tb - req['t0']:.6f} s after Look To"
         return None
